@@ -164,15 +164,23 @@ def readAll (b : Backend) (fs : FS) (path : Text) : Option Text :=
   | .ok (.bytes d _) => some d
   | _ => none
 
+/-- the (uid, name) table of a passwd text, in file order -/
+def usersOfText (t : Text) : List (Nat × Text) :=
+  (loadPrefix Formats.parseUser (Formats.scanLines Formats.defaultTokenMax t).1).map fun u => (u.uid, u.name)
+
+/-- the (gid, name) table of a group text, in file order -/
+def groupsOfText (t : Text) : List (Nat × Text) :=
+  (loadPrefix Formats.parseGroup (Formats.scanLines Formats.defaultTokenMax t).1).map fun g => (g.gid, g.name)
+
 def usersOf (b : Backend) (fs : FS) : List (Nat × Text) :=
   match readAll b fs passwdPath with
   | none => []
-  | some t => (loadPrefix Formats.parseUser (Formats.scanLines Formats.defaultTokenMax t).1).map fun u => (u.uid, u.name)
+  | some t => usersOfText t
 
 def groupsOf (b : Backend) (fs : FS) : List (Nat × Text) :=
   match readAll b fs groupPath with
   | none => []
-  | some t => (loadPrefix Formats.parseGroup (Formats.scanLines Formats.defaultTokenMax t).1).map fun g => (g.gid, g.name)
+  | some t => groupsOfText t
 
 /-- the entry list of the layer `writeTar` emits for `fs` -/
 def writeTar (b : Backend) (fs : FS) : List Entry :=
